@@ -50,8 +50,12 @@ func H_C06_Cycle() {
 	universe := vUniverse[:1]
 	nT := 3
 	if vrt.Thorough() {
-		universe = vUniverse
-		nT = vrt.Range("tables", 3, 4)
+		// one key over four tables, or two keys over three
+		if vrt.Choose("shape", 2) == 0 {
+			nT = 4
+		} else {
+			universe = vUniverse
+		}
 	}
 	h := vNewDBEnvU(universe)
 	defer h.fs.Cleanup()
